@@ -35,16 +35,34 @@ fn main() {
             let vars: serde_json::Value = serde_json::from_str(args.get(3).map(|s| s.as_str()).unwrap_or("{}")).expect("vars json");
             mc::world::install_panic_hook_quiet();
             let mut sess = mc::world::Session::new(&mc::world::Cfg::keep());
-            let wf = sess.deploy(&yml);
+            // several models separated by a line `---`: the first one is started
+            let docs: Vec<&str> = yml.split("\n---\n").collect();
+            let wf = sess.deploy(docs[0]);
+            for d in &docs[1..] {
+                sess.deploy(d);
+            }
             let mut v = vars.clone();
             v["pid"] = "p1".into();
             let r = sess.start(&wf.id, &mc::checks::common::vars_of(&v));
             println!("start => {r:?}");
             let mut done: std::collections::BTreeSet<String> = Default::default();
+            if let Ok(f) = std::env::var("TRY_FIRST") {
+                // "<action>:<key of the act>" after the first run to quiescence
+                let (k, key) = f.split_once(':').expect("TRY_FIRST=action:key");
+                sess.drain();
+                let tid = sess.dump("p1").and_then(|d| d.tasks.iter().find(|t| t.key == key).map(|t| t.tid.clone())).expect("no such key");
+                let r = sess.act(k, "p1", &tid, &acts::Vars::new());
+                println!("first {k} {key} ({tid}) => {r:?}");
+            }
             for _ in 0..400 {
                 let acts = sess.enabled();
-                if let Some(a) = acts.first() {
+                let pick = if std::env::var("TRY_LAST").is_ok() { acts.last() } else { acts.first() };
+                if let Some(a) = pick {
+                    let t0 = std::time::Instant::now();
                     sess.run(a.seq);
+                    if std::env::var("TRY_LAST").is_ok() {
+                        eprintln!("ran {} in {:?}, enabled now {}", a.label(), t0.elapsed(), sess.enabled().len());
+                    }
                     continue;
                 }
                 let open: Vec<acts::Message> = sess.open_irqs(None).into_iter().filter(|m| !done.contains(&m.tid)).collect();
@@ -70,6 +88,11 @@ fn main() {
                     println!("{t:?}");
                 }
             }
+        }
+        "c04prog" => {
+            let k: usize = args[2].parse().unwrap();
+            let p = &mc::checks::c04::selected_pub(Tier::Quick)[k];
+            println!("{}\n{}", p.name(), p.yml());
         }
         "items" => {
             let id = &args[2];
